@@ -58,11 +58,16 @@ def guard_consts(guards):
 
 
 def is_trivial(guards, val) -> bool:
+    # the degenerate branch `actions.shape[-1] == 1` (every tour went straight back to the depot)
     for t, b in guards:
-        if b and "actions" in vg.params_of(t) | {a.args[0] for a in vg.atoms(t) if a.op == "param"}:
-            txt = vg.show(t, 4)
-            if "size" in txt and "== 1" in txt:
-                return True
+        if not b:
+            continue
+        for n in vg.walk(t):
+            if n.op == "==" and len(n.args) == 2:
+                for x, y in ((n.args[0], n.args[1]), (n.args[1], n.args[0])):
+                    d = nf.dim_of(x)
+                    if d is not None and vg.is_const(y, 1) and d[0].op == "param" and d[0].args[0] == "actions":
+                        return True
     return False
 
 
